@@ -190,7 +190,10 @@ fn run_shard(
 #[derive(Debug, Clone)]
 pub struct Known {
     pub property: String,
+    /// first (or only) signature
     pub signature: String,
+    /// all signatures this entry covers
+    pub signatures: Vec<String>,
     pub status: String,
     pub what: String,
 }
@@ -207,9 +210,20 @@ pub fn load_known() -> Vec<Known> {
         .cloned()
         .unwrap_or_default()
         .iter()
-        .map(|e| Known {
+        .map(|e| {
+            let mut sigs: Vec<String> = e["signatures"]
+                .as_array()
+                .map(|a| a.iter().filter_map(|x| x.as_str().map(String::from)).collect())
+                .unwrap_or_default();
+            if let Some(s) = e["signature"].as_str() {
+                sigs.insert(0, s.to_string());
+            }
+            (e, sigs)
+        })
+        .map(|(e, sigs)| Known {
             property: e["property"].as_str().unwrap_or("").to_string(),
-            signature: e["signature"].as_str().unwrap_or("").to_string(),
+            signature: sigs.first().cloned().unwrap_or_default(),
+            signatures: sigs,
             status: e["status"].as_str().unwrap_or("").to_string(),
             what: e["what"].as_str().unwrap_or("").to_string(),
         })
@@ -347,7 +361,7 @@ pub fn run_check(def: &'static PropDef, tier: Tier, seed: u64) -> RunOutcome {
     for v in &merged.violations {
         let hit = known
             .iter()
-            .find(|k| k.property == def.id && k.status == "known" && k.signature == v.signature);
+            .find(|k| k.property == def.id && k.status == "known" && k.signatures.iter().any(|s| *s == v.signature));
         match hit {
             Some(k) => {
                 *known_hits.entry(k.signature.clone()).or_insert(0) += 1;
@@ -475,7 +489,9 @@ pub fn replay(def: &'static PropDef, path: &str) -> i32 {
     let v: Value = serde_json::from_str(&text).expect("replay json");
     let tier = Tier::parse(v["tier"].as_str().unwrap_or("quick")).unwrap_or(Tier::Quick);
     let seed = v["seed"].as_u64().unwrap_or(1);
-    let k = v["witness"]["scenario"].as_u64();
+    let k = v["witness"]["scenario"]
+        .as_u64()
+        .or_else(|| v["witness"]["params"]["scenario"].as_u64());
     println!("replay of {} signature={}", def.id, v["signature"]);
     println!("recorded explanation: {}", v["what"]);
     println!("recorded witness: {}", serde_json::to_string_pretty(&v["witness"]).unwrap());
